@@ -44,7 +44,15 @@ Deviations from DESIGN / weaker readings chosen on purpose:
    failed is reported as coverage.dup_idx_positional_mismatch (informational).
  * hdr and sldImg do not occur on slide masters; for them the master placeholder of the same type is accepted as
    well as the body placeholder.
- * generated placeholders are p:sp elements only (the corpus has no p:pic / p:graphicFrame layout placeholder);
+ * ELEMENT FORM of the layout placeholder (the corpus has no p:pic / p:graphicFrame layout placeholder): generated
+   placeholders are p:sp, except in the spaces singles_forms (8 (form, type): p:pic for pic, clipArt, media, absent;
+   p:graphicFrame for tbl, chart, dgm, absent; x 2 orient x 4 idx x 4 sz x {(xfrm, template), (xfrm, bare), (no xfrm,
+   bare)}) and pairs_forms (8 (form, type) with explicit geometry next to a p:sp of each of the 17 types x 2 xfrm, both
+   document orders). The same oracle applies: the clone is a placeholder of the same type/idx/orient/sz in the same
+   place, reporting the geometry of its layout counterpart. A non-p:sp layout placeholder WITHOUT geometry of its own
+   under a master that has a body placeholder is not enumerated: the library then reports None instead of the
+   master's geometry (probed; the layout proxy of such an element is a plain Picture / GraphicFrame without the
+   master fallback), a document state PowerPoint does not write for a filled placeholder.
    19 "schema types" in DESIGN is 16 in pml.xsd; 'type absent' is enumerated as a 17th value.
  * the cross product is reduced for pairs (quick: 4 idx vectors (a,a),(a,1),(1,1),(10,1), sz absent, template master;
    thorough: idx^2 in full, plus sz (half,quarter) on the bare master for the 4 idx vectors) and for triples (thorough:
@@ -74,7 +82,8 @@ RULE = ("A: every (corpus deck, master, layout); non-trivial = layout with >= 1 
         "4 idx x 2 xfrm x 4 sz x 2 masters; pairs quick: 17^2 x 2^2 orient x 4 idx vectors x 2^2 xfrm; pairs thorough: 17^2 x 2^2 x "
         "4^2 x 2^2 + 17^2 x 2^2 x 4 x 2^2 with sz (half,quarter) on the bare master; triples: 17^3 x 2 x 3 x 2; "
         "source-placeholder names: singles 17 x 2 orient x {E,O}; pairs quick 17^2 x 2 orient vectors x 1 idx vector x 9 name "
-        "vectors, thorough 17^2 x 2^2 x 4 idx vectors x 9; triples thorough 17^3 x 4 name vectors); "
+        "vectors, thorough 17^2 x 2^2 x 4 idx vectors x 9; triples thorough 17^3 x 4 name vectors; element forms p:pic / "
+        "p:graphicFrame: singles 8 (form,type) x 2 orient x 4 idx x 4 sz x 3 (xfrm,master), pairs 8 x 17 types x 2 xfrm x 2 orders); "
         "non-trivial = population with >= 1 non-latent placeholder (distinct by construction). A also evaluates every "
         "corpus layout a second time with its placeholders renamed to one name by public calls. N: notes slide on every "
         "corpus deck (as shipped + notes-master placeholders renamed to one name) + generated notes-master populations "
@@ -82,7 +91,9 @@ RULE = ("A: every (corpus deck, master, layout); non-trivial = layout with >= 1 
         "C: BFS over histories (replay mode), distinct canonical states; non-trivial = history with >= 2 operations.")
 ASSUMPTIONS = [
     "trusted: lxml parsing/c14n, zipfile, mc.oracles.opc_ref (relationship resolution), pml.xsd token list",
-    "generated layouts: p:sp placeholders only; types from ST_PlaceholderType plus 'absent'; idx in {absent,0,1,10}",
+    "generated layouts: types from ST_PlaceholderType plus 'absent'; idx in {absent,0,1,4294967295}; p:sp placeholders, and p:pic / "
+    "p:graphicFrame forms for the 8 (form, type) combinations of coverage.element_forms in the spaces singles_forms / pairs_forms "
+    "(a non-p:sp layout placeholder without own geometry only on the bare master)",
     "source-placeholder names: letters D/S/E/G/O as in mc/props/c13_gen.py; the 'G'/'O' literals come from a base-name table "
     "that is input generation only (its hit rate against the library is coverage.generated_name_prediction, never a verdict); "
     "name vectors are crossed with types (and orient) in full, with idx / xfrm / sz / master only at the points listed in RULE",
@@ -323,7 +334,8 @@ _SINGLE_FAILS = {}
 
 def _single_fails(spec, master):
     """Failures of the layout holding only `spec` (memoised per worker): [(rule, attrs)]."""
-    spec = list(spec[:5])   # the failures attributed to a member (raising add_slide / geometry) do not depend on its name
+    # the failures attributed to a member (raising add_slide / geometry) do not depend on its name, but on its element form
+    spec = list(spec[:5]) + ([None, G.spec_form(spec)] if G.spec_form(spec) != "sp" else [])
     k = (tuple(spec), master)
     if k not in _SINGLE_FAILS:
         res, _ = eval_gen_batch([[list(spec)]], master)
@@ -392,6 +404,8 @@ def _work_gen(part, chunk):
             part.count("generated_populations_%d" % len(pop))
             if exp.clone:
                 part.count("nontrivial_count")
+            if any(exp.phs[i]["tag"] != "sp" for i in exp.clone):
+                part.count("non_sp_form_populations")
             src_names = [exp.phs[i]["name"] for i in exp.clone]
             if len(set(src_names)) != len(src_names):
                 part.count("dup_source_name_populations")
@@ -676,12 +690,20 @@ def run(ctx):
     fanout(ctx, _work_gen, _batches(s_cases, ctx), chunk_size=2)
     sn_cases, sn_n = G.singles_names(types)
     fanout(ctx, _work_gen, _batches(sn_cases, ctx), chunk_size=2)
+    sf_cases, sf_n = G.singles_forms()
+    fanout(ctx, _work_gen, _batches(sf_cases, ctx), chunk_size=2)
+    pf_cases, pf_n = G.pairs_forms(types)
+    fanout(ctx, _work_gen, _batches(pf_cases, ctx), chunk_size=2)
     p_cases, p_n = G.pairs(types, ctx.thorough)
     fanout(ctx, _work_gen, _batches(p_cases, ctx))
     pn_cases, pn_n = G.pairs_names(types, ctx.thorough)
     fanout(ctx, _work_gen, _batches(pn_cases, ctx))
-    spaces = {"singles": s_n, "singles_names": sn_n, "pairs": p_n, "pairs_names": pn_n}
-    total = s_n + sn_n + p_n + pn_n
+    spaces = {"singles": s_n, "singles_names": sn_n, "singles_forms": sf_n, "pairs": p_n, "pairs_names": pn_n, "pairs_forms": pf_n}
+    total = s_n + sn_n + sf_n + p_n + pn_n + pf_n
+    if ctx.counters.get("non_sp_form_populations") != sf_n + pf_n:
+        raise HarnessError("populations with a p:pic / p:graphicFrame placeholder (bare reading of the generated layout): %r, generated %d"
+                           % (ctx.counters.get("non_sp_form_populations"), sf_n + pf_n))
+    ctx.extra["element_forms"] = ["%s:%s" % (f, t or "(absent)") for f, t in G.FORM_TYPES]
     if ctx.thorough:
         t_cases, t_n = G.triples(types)
         fanout(ctx, _work_gen, _batches(t_cases, ctx))
